@@ -13,6 +13,8 @@
 (***************************************************************************)
 EXTENDS Cli, Dot, TLC, Json, IOUtils
 
+NS8 == <<"n1", "n2", "n3", "n4", "n5", "n6", "n7", "n8">>
+NS7 == <<"n1", "n2", "n3", "n4", "n5", "n6", "n7">>
 NS6 == <<"n1", "n2", "n3", "n4", "n5", "n6">>
 NS5 == <<"n1", "n2", "n3", "n4", "n5">>
 NS4 == <<"n1", "n2", "n3", "n4">>
@@ -37,17 +39,30 @@ RunVerdict(r) ==
     IN IF shouldFail # (r.exit = 1) THEN (IF shouldFail THEN "exit 0 although the input is not a formula" ELSE "error exit on a valid input")
        ELSE IF shouldFail THEN (IF r.stdout_empty THEN "" ELSE "output printed before an error exit")
        ELSE
-       LET names == FormulaVars(otk.toks, ftk.toks)
+       \* The variable order is an OBSERVABLE of the tool (what -r exports; r.names is that list completed to a
+       \* permutation), constrained by what the properties demand of it: every name of the text exactly once (C09)
+       \* and the names listed in the ordering file in the order of the file (C11).  Cli!FormulaVars is the order
+       \* the pinned implementation happens to derive; it is not demanded.
+       LET names == r.names
+           fnames == VarNames(ftk.toks)
+           listed == UniqueSeq(VarNames(otk.toks), <<>>)
+           PermOK(q) == Len(q) = Len(fnames) /\ SeqRange(q) = SeqRange(fnames)
+           ListedOK(q) == SelectSeq(q, LAMBDA n : n \in SeqRange(listed)) = SelectSeq(listed, LAMBDA n : n \in SeqRange(q))
            ren   == [n \in SeqRange(names) |-> NameSeq[PosIn(names, n)]]
            tree  == RenameTree(p.t, ren)
            m     == SemC(tree, <<>>)
            G     == m.s
            hdr   == r.header
        IN IF Len(names) > NV THEN "harness: too many names for this group"
-          ELSE IF names # r.names THEN "variable ids: names in id order differ (ordering file not respected)"
+          ELSE IF ~PermOK(r.lib_names) THEN "variable ids: the variable list is not every name of the text exactly once"
+          ELSE IF ~ListedOK(r.lib_names) THEN "variable ids: the names listed in the ordering are not ordered as listed"
+          ELSE IF ~PermOK(names) \/ r.order_export # [i \in 1..Len(names) |-> NameSeq[i]]
+               THEN "-r does not list every variable of the text exactly once"
+          ELSE IF ~ListedOK(names) THEN "-r / variable order: the names listed in the ordering file are not ordered as in the file"
+          ELSE IF \E i \in DOMAIN r.export_extras : r.export_extras[i] \notin SeqRange(listed)
+               THEN "-r lists a name that is neither in the formula nor in the ordering file"
           ELSE IF tree # r.ast THEN "parse tree differs from the grammar's"
           ELSE IF ~m.ok THEN "specification: fixed point does not converge within the fuel"
-          ELSE IF r.has_export /\ r.order_export # names THEN "-r does not list the variables in id order"
           ELSE IF r.has_table /\ ~HeaderOK(hdr, tree) THEN "header is not the free variables in variable order"
           ELSE IF r.has_table /\ r.model /\ r.retain = "Any" /\ ~ModelTableOK(hdr, Rows(r), G, r.filter) THEN "-m: table is not one satisfying row of the formula"
           \* -m together with -c: the pipeline retains first, then extracts the model; base_rows is the table the tool
